@@ -122,8 +122,8 @@ def gen_direct_ops(rng, spec, execute_op, view, nops):
                 op = dict(kind="stop", t=view.n + 1)
         if op is None:
             continue
-        if op["kind"] not in ("sleep", "busy"):
-            op["dt_in"] = gen_dt(rng, scale)
+        if op["kind"] != "sleep":
+            op["dt_in"] = gen_dt(rng, scale)      # real time passes before every backend call, busy_trial_ids included
         if not execute_op(op):
             return
 
@@ -139,6 +139,7 @@ def run_direct(spec, ops_in, rng=None, nops=0, np_seed=0):
     with mock.patch.object(m["tk"], "time", fake):
         be, bb = sh.make_backend(spec, fake, lambda kind: cur["dt"], log)
         be.time_keeper.start_of_time()
+        fake.marked()
 
         def execute_op(op):
             k = op["kind"]
@@ -222,7 +223,7 @@ def gen_tuner_params(rng, spec):
     kind = rng.choice(["fifo", "hb_stopping", "hb_promotion", "hb_promotion"])
     return dict(kind=kind, n_workers=rng.randint(1, 4), seed=rng.randrange(10 ** 6),
                 max_trials=rng.randint(3, 10), grace=(1 if spec["nfid"] <= 2 else rng.choice([1, 1, 2])), rf=rng.choice([2, 3]),
-                without_delay=rng.random() < 0.7, dt_scale=rng.choice([0.0, 0.01, 0.125, 1.0]),
+                without_delay=rng.random() < 0.5, dt_scale=rng.choice([0.0, 0.01, 0.125, 1.0]),
                 wait=rng.random() < 0.5, max_wallclock=rng.choice([None, 5.0, 20.0]))
 
 
@@ -256,6 +257,10 @@ def run_tuner(spec, tp):
 
     class RecordingCallback(SimulatorCallback):
         """the real callback; records each tuner sleep and the clock around it"""
+
+        def on_tuning_start(self, tuner):
+            super().on_tuning_start(tuner)      # calls time_keeper.start_of_time(), which sets the exit mark
+            fake.marked()
 
         def on_tuning_sleep(self, sleep_time):
             before = self._time_keeper.time()
